@@ -125,6 +125,7 @@ def run(ctx):
         names = gen.name_pool(rng, nseq, maxlen=12, charset="abcdefghijklmnopqrstuvwxyzABCDEFGHIJKLMNOPQRSTUVWXYZ0123456789_")
         recs = [(n, s) for n, (_, s) in zip(names, recs)]
         t = rng.choice([3, 4, 5]) if kind == "protein" else rng.choice([0, 1, 2, 5])
+        t = gen.fit_type(t, kind, recs)
         fmt = rng.choice(["fasta", "clu", "msf"])
         ref = Case(recs, t, fmt=fmt, tag="plain fasta")
         alts = []
